@@ -33,8 +33,9 @@ fn simulate_run(seed: u64, run: u64, stats: &mut Stats, crosscheck: bool) -> (Sc
     clock::install(&clk, true);
     let opts = ExecOpts {
         crosscheck,
-        collect_samples: run < 64,
+        collect_samples: run < 4,
         lean: false,
+        run,
     };
     let mut log = Fnv::new();
     log.write_i64(secs);
@@ -128,6 +129,7 @@ fn replay(path: &str, expect_class: Option<&str>) -> i32 {
         crosscheck: false,
         collect_samples: false,
         lean: false,
+        run: u64::MAX,
     };
     let (viol, hash) = exec::run_script(&script, &mut st, &opts);
     println!("replay {}: {} events, log hash {:016x}", path, script.events.len(), hash);
@@ -331,6 +333,7 @@ fn main() {
             crosscheck: false,
             collect_samples: false,
             lean: false,
+            run: u64::MAX,
         };
         let (v_min, _) = exec::run_script(&min, &mut st, &opts);
         let final_v = match v_min {
